@@ -4,8 +4,30 @@ from harness.pl1 import default_cfg as D
 LIST, GEN, UNORD = "list", "generator", "generator_unordered"
 
 
-def c01(quick):
+def sequential(prop):
+    """n_jobs == 1: joblib's in-caller path (_get_sequential_output); deterministic but for the consumer's decisions"""
     S = []
+    modes = (LIST, GEN, UNORD)
+    for mode in modes:
+        if prop == "C01":
+            for n in (0, 1, 4):
+                S.append((D(mode=mode, nj=1, pre=2, bs=1, calls=[dict(n=n), dict(n=2)]), "dfs", 50))
+            S.append((D(mode=mode, nj=1, pre="all", bs=3, managed=True, calls=[dict(n=5), dict(n=2)]), "dfs", 50))
+        elif prop == "C04":
+            S.append((D(mode=mode, nj=1, pre=2, bs=1, calls=[dict(n=4, fail=(1,)), dict(n=3, iterfail=1), dict(n=2)]), "dfs", 50))
+            S.append((D(mode=mode, nj=1, pre=2, bs=1, managed=True, calls=[dict(n=4, iterfail=0), dict(n=3, fail=(2,)), dict(n=2)]), "dfs", 50))
+        elif prop == "C09":
+            S.append((D(mode=mode, nj=1, pre="2*n_jobs", bs=2, calls=[dict(n=9)]), "dfs", 50))
+            S.append((D(mode=mode, nj=1, pre=3, bs=1, calls=[dict(n=8, fail=(2,)), dict(n=2)]), "dfs", 50))
+        elif prop == "C16" and mode != LIST:
+            S.append((D(mode=mode, nj=1, pre=2, bs=1, calls=[dict(n=3, cons="free"), dict(n=2)]), "dfs", 400))
+            S.append((D(mode=mode, nj=1, pre=2, bs=1, calls=[dict(n=4, cons="close"), dict(n=4, cons="close"), dict(n=2)]), "dfs", 200))
+            S.append((D(mode=mode, nj=1, pre=2, bs=1, managed="per_call", calls=[dict(n=3, cons="leave"), dict(n=2)]), "dfs", 100))
+    return S
+
+
+def c01(quick):
+    S = sequential("C01")
     lim = 400 if quick else 6000
     rnd = 150 if quick else 1500
     for mode in (LIST, GEN):
@@ -29,7 +51,7 @@ def c01(quick):
 
 
 def c04(quick):
-    S = []
+    S = sequential("C04")
     lim = 250 if quick else 8000
     rnd = 70 if quick else 1500
     for mode in (LIST, GEN, UNORD):
@@ -51,7 +73,7 @@ def c04(quick):
 
 
 def c09(quick):
-    S = []
+    S = sequential("C09")
     lim = 400 if quick else 6000
     rnd = 120 if quick else 1500
     for mode in (LIST, GEN, UNORD):
@@ -74,7 +96,7 @@ def c09(quick):
 
 
 def c16(quick):
-    S = []
+    S = sequential("C16")
     lim = 600 if quick else 10000
     rnd = 150 if quick else 2000
     for mode in (GEN, UNORD):
